@@ -75,8 +75,14 @@ impl BitmapEvent {
                         if self.data.len() < size {
                             return Err(Error::RdpError(RdpError::new(RdpErrorKind::InvalidSize, "bitmap data shorter than width * height pixels")))
                         }
-                        let mut result = self.data;
-                        result.truncate(size);
+                        // rows arrive bottom-up, return them top-down like the other paths
+                        let stride = self.width as usize * 4;
+                        let height = self.height as usize;
+                        let mut result = vec![0 as u8; size];
+                        for i in 0..height {
+                            let src = (height - i - 1) * stride;
+                            result[i * stride..(i + 1) * stride].copy_from_slice(&self.data[src..src + stride]);
+                        }
                         result
                     }
                 )
